@@ -1058,5 +1058,109 @@ Lemma source_round3 :
   Gen.C18.paloma_pagination_sites = ["GetLegacyLightNodeClients:PageRequest"]%string /\
   Gen.C18.iterall_loops = []%string /\ Gen.C18.iterall_breaks = 0 /\ Gen.C18.iterall_calls = ["IterAllFnc"]%string /\
   Gen.C18.iterallfnc_loops = ["for ; iterator.Valid(); iterator.Next()"]%string /\
-  Gen.C18.iterallfnc_breaks = 0 /\ Gen.C18.iterallfnc_calls = ["Iterator"]%string.
+  Gen.C18.iterallfnc_breaks = 0 /\ Gen.C18.iterallfnc_calls = ["Iterator"]%string /\
+  Gen.C18.ante_declared_before_loop = ["msgs"; "err"]%string /\
+  Gen.C18.ante_declared_per_message = ["m"; "ok"; "creator"; "signers"; "signedByCreator"; "grants"; "err";
+                                       "grantsLkUp"; "grantees"; "v"; "found"]%string.
+Proof. vm_compute. repeat split; reflexivity. Qed.
+
+(** ================= 11. round 5: whole transactions through the decorator ================= *)
+
+Lemma run_msgs_ok ms : forall s s', run_msgs s ms = (s', Ok) -> s' = run s (tx_ops ms).
+Proof.
+  induction ms as [|m r IH]; intros s s' H; cbn in H; [inversion H; reflexivity|].
+  destruct (body_step s (tm_body m)) as [s1 o] eqn:E. destruct o; try (inversion H; fail).
+  apply IH in H. subst s'. unfold tx_ops. cbn [flat_map]. fold (tx_ops r).
+  unfold body_step in E. destruct (tm_body m) as [o|c].
+  - cbn [app]. unfold run at 2. cbn [fold_left]. rewrite E. reflexivity.
+  - destruct (str_valid c); inversion E; subst. reflexivity.
+Qed.
+
+Lemma ante_all s ms : ante s ms = Ok -> forall m, In m ms -> authorised s m = Ok.
+Proof.
+  induction ms as [|m r IH]; cbn; intros H x Hin; [contradiction|].
+  destruct (authorised s m) eqn:E; try discriminate. destruct Hin as [<-|Hin]; auto.
+Qed.
+
+(** a transaction either changes nothing, or every message was authorised by the decorator on the
+    state before the transaction and the result is the plain operations run in order *)
+Theorem deliver_tx_cases s ms :
+  (fst (deliver_tx s ms) = s /\ snd (deliver_tx s ms) <> Ok) \/
+  (snd (deliver_tx s ms) = Ok /\ fst (deliver_tx s ms) = run s (tx_ops ms) /\
+   forall m, In m ms -> authorised s m = Ok).
+Proof.
+  unfold deliver_tx. destruct (ante s ms) eqn:Ea; try (left; cbn; split; [reflexivity | discriminate]).
+  unfold atomically. destruct (run_msgs s ms) as [s' o] eqn:Er.
+  destruct o; try (left; cbn; split; [reflexivity | discriminate]).
+  right. cbn. split; [reflexivity|]. split; [now apply run_msgs_ok | now apply ante_all].
+Qed.
+
+(** C18 clause 3 at transaction level: a transaction that goes through and contains the
+    activation of [who]'s licence carries, for that message, the signature of [who] itself (the
+    creator string being the canonical spelling of a signer) or of an address to which [who] has
+    granted a fee allowance — whatever else the transaction contains, and whoever signed the rest *)
+Theorem activation_only_by_licensee_tx_thm : forall (s : state) (ms : list tmsg) (m : tmsg) (who : key),
+  snd (deliver_tx s ms) = Ok -> In m ms -> tm_body m = TOp (Register who) ->
+  (snd who = false /\ In (fst who) (tm_signers m)) \/
+  (exists x, In x (tm_signers m) /\ grants s (fst who) x = true).
+Proof.
+  intros s ms m who Hok Hin Hb.
+  destruct (deliver_tx_cases s ms) as [[_ H]|(_ & _ & Ha)]; [contradiction|].
+  specialize (Ha m Hin). unfold authorised in Ha. rewrite Hb in Ha. cbn [tm_creator] in Ha.
+  destruct (signed_by_creator who (tm_signers m)) eqn:E1.
+  - left. unfold signed_by_creator in E1. apply andb_true_iff in E1 as [E1 E3]. apply andb_true_iff in E1 as [E1 _].
+    apply negb_true_iff in E1. split; [exact E1|].
+    apply existsb_exists in E3 as (x & Hx & Ex). apply Z.eqb_eq in Ex. now subst.
+  - destruct (negb (str_valid who)); [discriminate|].
+    destruct (signed_by_grantee s who (tm_signers m)) eqn:E2; [|discriminate].
+    right. unfold signed_by_grantee in E2. apply existsb_exists in E2 as (x & Hx & Ex). eauto.
+Qed.
+
+(** the invariants over histories of extended operations AND transactions *)
+Lemma run_funders_ne ops : forall s, inv_struct s -> funders s <> Some [] -> funders (run s ops) <> Some [].
+Proof.
+  induction ops as [|o r IH]; intros s Hs Hf; [exact Hf|]. cbn. apply IH; [now apply step_struct|].
+  apply step_funders_ne; auto. apply Hs.
+Qed.
+
+Lemma hstep_inv s h : xinv s -> hop_wf h -> xinv (fst (hstep s h)).
+Proof.
+  intros Hi Hwf. destruct h as [x|ms]; cbn [hstep].
+  - now apply xstep_inv.
+  - destruct (deliver_tx_cases s ms) as [[E _]|(_ & E & _)]; rewrite E; [exact Hi|].
+    destruct Hi as [Hinv Hf]. split; [apply run_inv; auto | apply run_funders_ne; auto; apply Hinv].
+Qed.
+
+Lemma hrun_inv hs : forall s, xinv s -> Forall hop_wf hs -> xinv (hrun s hs).
+Proof.
+  induction hs as [|h r IH]; intros s Hi Hwf; [assumption|].
+  inversion Hwf; subst. cbn. apply IH; auto. now apply hstep_inv.
+Qed.
+
+Theorem escrow_over_transactions_thm : forall (s0 : state) (hs : list hop),
+  xinv s0 -> Forall hop_wf hs ->
+  let s := hrun s0 hs in
+  (forall d, bal s escrow d = lic_sum d (lics s) + gifts s d /\ lic_sum d (lics s) <= bal s escrow d) /\
+  NoDup (lic_ids (lics s)) /\
+  (forall k l, In (k, l) (lics s) -> acct s (fst k) = Some Base /\ 0 < l_amount l).
+Proof.
+  intros s0 hs Hi Hwf s. pose proof (hrun_inv hs s0 Hi Hwf) as [[Hs [Hb Hg Hf]] _]. fold s in Hs, Hb, Hg.
+  split; [|split].
+  - intros d. split; [apply Hb|]. rewrite Hb. specialize (Hg d). lia.
+  - apply Hs.
+  - intros k l Hin. destruct (is_lic _ Hs k l Hin) as (Ha & Hp & _). auto.
+Qed.
+
+(** non-vacuity: the stranger's two-message transaction is refused; the licensee's own and its
+    fee-grantee's go through *)
+Example ex_tx :
+  let s := run ex_s0 (firstn 4 ex_ops) in                     (* address 3 holds a licence *)
+  let forged := [ {| tm_signers := [5]; tm_body := TStatus (5, false) |};
+                  {| tm_signers := [5]; tm_body := TOp (Register (3, false)) |} ] in
+  let own := [ {| tm_signers := [5]; tm_body := TStatus (5, false) |};
+               {| tm_signers := [3]; tm_body := TOp (Register (3, false)) |} ] in
+  let s1 := fst (step s (Grant 3 5)) in
+  deliver_tx s forged = (s, Err EUnauthorized) /\
+  snd (deliver_tx s own) = Ok /\ lics (fst (deliver_tx s own)) = [] /\
+  snd (deliver_tx s1 forged) = Ok.
 Proof. vm_compute. repeat split; reflexivity. Qed.
